@@ -2,6 +2,7 @@
 //! `is_covered`, `std::path` and `globset` to the Lean models (UPath / Glob / Rewrite, driver
 //! `gm_c11`) and evaluates the property oracles on the implementation.
 mod pathgen;
+mod partial;
 use corrlib::*;
 use pathgen::*;
 use serde_json::json;
@@ -482,7 +483,8 @@ pub fn run(rep: &mut Report) {
     glob_ops(rep, &mut rng);
     covered_ops(rep, &mut rng);
     rewrite_stream(rep, &mut rng);
-    rep.notes.push("Java/Kotlin keys (map_partial_path), exclusion markers, symlinks and keys whose first character is a cased non-ASCII letter are outside the generated domain; relative keys without source dir are resolved against the process cwd, which the harness sets to <tree>/cw".into());
+    partial::run(rep);
+    rep.notes.push("Java/Kotlin keys (map_partial_path): see part Partial (src/partial.rs); in the streams above exclusion markers, symlinks and keys whose first character is a cased non-ASCII letter are outside the generated domain; relative keys without source dir are resolved against the process cwd, which the harness sets to <tree>/cw".into());
 }
 
 pub fn replay(rep: &mut Report, case: &serde_json::Value) {
@@ -512,6 +514,7 @@ pub fn replay(rep: &mut Report, case: &serde_json::Value) {
                 rep.fail("disagreement", None, "model differs from the recorded library answer".into(), case.clone());
             }
         }
+        op if op.starts_with("c11.partial") => partial::replay(rep, case),
         _ => {}
     }
 }
